@@ -2,7 +2,8 @@
    ONLY property theorems (each closed by `exact`) and non-vacuity examples. *)
 From Coq Require Import List ZArith Bool Permutation Sorted.
 From IB Require Import Engine.Val Engine.Ops Engine.AMap Engine.Nodes Engine.Exec Engine.Planner
-     Engine.Lang Engine.Denote Engine.Static Proofs.EngineElementwise.
+     Engine.Lang Engine.Denote Engine.Static Engine.Sorted Proofs.EngineElementwise
+     Proofs.EngineSorted.
 Import ListNotations.
 
 (* the chain the builders produce for a source followed by element-wise transforms: one Stateless
@@ -55,6 +56,50 @@ Theorem c02_reorder_refuted_panic :
   let s := SrcVec TKV [VPair (VInt 1) (VInt 1)] in
   run_seq s [SMapValuesW (FAdd 1); SFilterValuesW PTrue] = Panic.
 Proof. exact reorder_refuted_panic. Qed.
+
+(* The sorting collectors (helpers/collect_sorted.rs).  collect_seq_sorted / collect_par_sorted:
+   the result is a sorted permutation of the plain result, and there is only one such list. *)
+Theorem c02_sorted_collect_spec : forall rows,
+    Permutation rows (sort_rows rows) /\
+    StronglySorted (fun a b => val_leb a b = true) (sort_rows rows) /\
+    forall out, Permutation rows out -> StronglySorted (fun a b => val_leb a b = true) out ->
+                out = sort_rows rows.
+Proof. exact sort_rows_spec. Qed.
+
+(* collect_par_sorted_by_key: nothing lost or invented, keys ascend, and for EVERY key the rows
+   carrying it are exactly the rows of the plain result in their original order (the sort is
+   stable: no element is reordered against another element of its key) - and these facts
+   determine the result, so they hold for whatever stable sorting algorithm the library uses. *)
+Theorem c02_sorted_by_key_is_stable_sort : forall rows,
+    let out := sort_rows_by_key rows in
+    Permutation rows out /\
+    StronglySorted (fun a b => val_leb (row_key a) (row_key b) = true) out /\
+    (forall a, filter (same_key a) out = filter (same_key a) rows) /\
+    forall out',
+      StronglySorted (fun a b => val_leb (row_key a) (row_key b) = true) out' ->
+      (forall a, filter (same_key a) out' = filter (same_key a) rows) ->
+      out' = out.
+Proof. exact sort_rows_by_key_spec. Qed.
+
+(* whole programs through the sorting collectors (which = 0 collect_seq_sorted, 1
+   collect_par_sorted, 2 collect_par_sorted_by_key): the sorted list interpretation *)
+Theorem c02_sorted_program_as_written : forall which s steps parts,
+    forallb elementwise_step steps = true -> well_typed (src_tag s) steps = true ->
+    reorder_noop (fuse (cs_chain (compile s steps))) ->
+    run_sorted which (run_seq s steps) = Ok (sorted_collect which (denote s steps)) /\
+    run_sorted which (run_par s steps parts) = Ok (sorted_collect which (denote s steps)).
+Proof. exact program_sorted_as_written. Qed.
+
+Example c02_sorted_example :
+  let rows := [VPair (VInt 2) (VInt 9); VPair (VInt 1) (VInt 7); VPair (VInt 2) (VInt 3);
+               VPair (VInt 1) (VInt 8); VPair (VInt 2) (VInt 5)] in
+  sort_rows_by_key rows
+  = [VPair (VInt 1) (VInt 7); VPair (VInt 1) (VInt 8);
+     VPair (VInt 2) (VInt 9); VPair (VInt 2) (VInt 3); VPair (VInt 2) (VInt 5)] /\
+  sort_rows rows
+  = [VPair (VInt 1) (VInt 7); VPair (VInt 1) (VInt 8);
+     VPair (VInt 2) (VInt 3); VPair (VInt 2) (VInt 5); VPair (VInt 2) (VInt 9)].
+Proof. split; vm_compute; reflexivity. Qed.
 
 Example c02_example :
   let s := SrcVec TU [VInt 1; VInt 2; VInt 3; VInt 4; VInt 5] in
